@@ -172,9 +172,43 @@ def _render_check(item):
     return ('bad' if errs else 'ok', errs[:4], hexdump, hexrep, hexjson)
 
 
+def code_gate(run):
+    """C18 translator: Candidate.code() regenerated from droop/candidate.py (harness/gen_code.py), kernel-checked equal to
+    C18.codeProg, which lean/Props/C18Prog.lean proves to be the model's status code."""
+    import gen_code, subprocess
+    cov = run.coverage
+    try:
+        prog = gen_code.program(common.REPO)
+    except gen_code.TranslationError as e:
+        cov['translator_code'] = dict(status='refused', why=str(e))
+        return ['translator harness/gen_code.py refused the source: %s' % e]
+    except Exception as e:
+        cov['translator_code'] = dict(status='error', why='%s: %s' % (type(e).__name__, e))
+        return ['translator harness/gen_code.py failed: %s: %s' % (type(e).__name__, e)]
+    gdir = os.path.join(common.LEAN, '.lake', 'gen')
+    os.makedirs(gdir, exist_ok=True)
+    path = os.path.join(gdir, 'Code_%d.lean' % os.getpid())
+    open(path, 'w').write(gen_code.lean_file(prog))
+    try:
+        r = subprocess.run(['lake', 'env', 'lean', path], cwd=common.LEAN, capture_output=True, text=True, timeout=600)
+        out = r.stdout + r.stderr
+    finally:
+        try: os.remove(path)
+        except OSError: pass
+    ok = r.returncode == 0 and 'error' not in out.lower()
+    axioms_ok = all(set(a.strip() for a in m.split(',') if a.strip()) <= common.STD_AXIOMS
+                    for m in re.findall(r"depends on axioms: \[([^\]]*)\]", out, flags=re.S))
+    cov['translator_code'] = dict(status='checked' if ok and axioms_ok else 'mismatch',
+                                  obligation='Gen.code = C18.codeProg by rfl; code_is_program (lean/Props/C18Prog.lean)')
+    if ok and axioms_ok:
+        return []
+    return ['Candidate.code() of droop/candidate.py, translated, is no longer the table lean/Props/C18Prog.lean proves the model status code equal to: '
+            + ' '.join(l for l in out.split('\n') if 'error' in l.lower())[:300]]
+
+
 @prop('C18')
 def C18(run):
-    count_property(run, dict(rules=ALL, keys=['C18'], proj=proj_C18, quick=4000, thorough=100000))
+    count_property(run, dict(rules=ALL, keys=['C18'], proj=proj_C18, quick=4000, thorough=100000, extra_gate=code_gate))
     rng = rng_for(run, 'render')
     cases = campaign.make_cases(rng, budget(run, 3000, 80000), ALL)
     items = []
